@@ -1,6 +1,7 @@
 package main
 
 import (
+	"io"
 	"bytes"
 	"context"
 	"encoding/base64"
@@ -218,6 +219,95 @@ func runC11(o *hx.Out, r *hx.Rand, thorough bool) {
 			}
 			o.Case("stream_"+kind, fmt.Sprintf("SReq %s %d %d %d %s %d %d %d %s %s %s",
 				reqTerm(false), nsend, hcode, rec.Code, hx.B(strings.Contains(rec.Header().Get("Allow"), "POST")), calls, nd, nt, hx.B(tl), hx.Z(tc), hx.B(panicked)), d)
+		}
+	}
+	// streaming request bodies, frame by frame: a handler that reads its requests to the end sees exactly the
+	// well-formed messages before the first malformed frame, and a malformed frame (undecodable payload, payload
+	// shorter than its size preface, size preface cut short) ends the call with a non-OK status
+	{
+		seen := 0
+		var rerr error
+		reader := &hx.Svc{Stream: func(kind string, ss grpc.ServerStream) error {
+			for {
+				m := &hx.Msg{}
+				if err := ss.RecvMsg(m); err != nil {
+					if err == io.EOF {
+						return nil
+					}
+					rerr = err
+					return err
+				}
+				seen++
+			}
+		}}
+		rdesc := hx.Desc(hx.SvcName)
+		frameOf := func(p []byte) []byte {
+			b := make([]byte, 4)
+			binary.BigEndian.PutUint32(b, uint32(len(p)))
+			return append(b, p...)
+		}
+		good := [][]byte{pb, {}, pb}
+		type tailT struct {
+			name string
+			b    []byte
+			ok   bool
+		}
+		big, _ := proto.Marshal(&hx.Msg{Count: 9, Payload: []byte("123456789")})
+		tails := []tailT{
+			{"nothing (clean end)", nil, true},
+			{"one more good frame", frameOf(pb), true},
+			{"undecodable payload", frameOf([]byte{0xff, 0xff, 0xff}), false},
+			{"payload two bytes short of its size", frameOf(big)[:4+len(big)-2], false},
+			{"payload cut at a field boundary", frameOf(big)[:4+2], false},
+			{"size preface only, no payload", frameOf(big)[:4], false},
+			{"half a size preface", frameOf(big)[:2], false},
+		}
+		for _, kind := range []string{"BD", "CS"} {
+			var sd *grpc.StreamDesc
+			for i := range rdesc.Streams {
+				if rdesc.Streams[i].StreamName == kind {
+					sd = &rdesc.Streams[i]
+				}
+			}
+			h := httpgrpc.HandleStream(reader, hx.SvcName, sd, nil)
+			for ngood := 0; ngood <= 3; ngood++ {
+				for _, tl := range tails {
+					var body []byte
+					for i := 0; i < ngood; i++ {
+						body = append(body, frameOf(good[i])...)
+					}
+					body = append(body, tl.b...)
+					want := ngood
+					if tl.name == "one more good frame" {
+						want++
+					}
+					seen, rerr = 0, nil
+					req := httptest.NewRequest("POST", "/verif.Svc/"+kind, bytes.NewReader(body))
+					req.Header.Set("Content-Type", httpgrpc.StreamRpcContentType_V1)
+					rec := httptest.NewRecorder()
+					h(rec, req)
+					// the trailer's code
+					tc := int64(-1)
+					b := rec.Body.Bytes()
+					for pos := 0; pos+4 <= len(b); {
+						sz := int32(binary.BigEndian.Uint32(b[pos:]))
+						pos += 4
+						if sz < 0 {
+							var tr httpgrpc.HttpTrailer
+							if pos+int(-sz) <= len(b) && proto.Unmarshal(b[pos:pos+int(-sz)], &tr) == nil {
+								tc = int64(tr.Code)
+							}
+							break
+						}
+						pos += int(sz)
+					}
+					d := map[string]interface{}{"kind": kind, "good_frames": ngood, "then": tl.name, "handler_received": seen, "handler_receive_error": fmt.Sprint(rerr), "status": rec.Code, "trailer_code": tc}
+					if tl.ok != (tc == 0) {
+						o.Violate("a streaming request body and the status the call ended with do not agree", d, tc, map[bool]string{true: "OK", false: "a non-OK status"}[tl.ok])
+					}
+					o.Case("stream_body_"+kind, fmt.Sprintf("SBody %s %d %d %d %s", hx.B(tl.ok), want, seen, rec.Code, hx.Z(tc)), d)
+				}
+			}
 		}
 	}
 	// unknown paths through the server's mux
